@@ -13,11 +13,17 @@ structure Env where
   lowerOf : Str → Str
   segOf : Str → List Str
 
+/-- `is_matched_case_insensitively`: the escaped lower-cased test case, compiled with `(?i)` and both
+anchors, matches the original — position by position up to the regex crate's simple case folding -/
+def ciLiteralMatch (lower original : Str) : Bool :=
+  lower == original ||
+    (lower.length == original.length && (List.zip lower original).all fun p => Spec.chrMatches true p.1 p.2)
+
 /-- `convert_for_case_insensitive_matching` -/
 def lowerCases (env : Env) (ws : List Str) : List Str :=
   ws.map fun it =>
     let l := env.lowerOf it
-    if l.length = it.length then l else it
+    if l.length = it.length && ciLiteralMatch l it then l else it
 
 /-- `RegExp::grapheme_clusters` -/
 def graphemeClusters (cfg : Config) (env : Env) (ws : List Str) : List Cluster :=
